@@ -8,17 +8,19 @@
 pub mod stubs;
 #[cfg(kani)]
 pub mod util;
+#[cfg(kani)]
+pub mod refm;
 
 #[cfg(kani)]
 pub mod c01;
-#[cfg(kani)]
-pub mod probe;
 #[cfg(kani)]
 pub mod c08;
 #[cfg(kani)]
 pub mod c11;
 #[cfg(kani)]
 pub mod c18;
+#[cfg(kani)]
+pub mod c19;
 
 #[cfg(all(kani, verif_native))]
 mod replay {
